@@ -74,7 +74,7 @@ class Campaign:
                     print(f"  .. {d}/{tot} {round(time.time() - t0)}s", file=sys.stderr, flush=True)
 
             results = pool.run_tasks(ctx, tasks, timeout=getattr(spec, "task_timeout", 150), progress=progress)
-            if hasattr(spec, "second_phase"):
+            if hasattr(spec, "second_phase") and not replay:
                 extra = spec.second_phase(tier, seed, tasks, results)
                 if extra:
                     r2 = pool.run_tasks(ctx, extra, timeout=getattr(spec, "task_timeout", 150), progress=progress)
